@@ -68,6 +68,7 @@ def scenario(ns, inp):
     T = ns.task
     T.threading = sched.ThreadingShim
     T.time = env.CLOCK
+    env.CLOCK.now = 1700000000.0
     s = sched.Sched(bound=inp["P"], max_steps=6000)
     sched.install(s)
     ledger = {}
